@@ -637,6 +637,10 @@ pub struct GParams {
     /// reach every shape through a history with removals (see `build_world`)
     #[serde(default)]
     pub churn: u8,
+    /// > 0: the hub families (4 nodes, 1..=hubs parallel / self-loop edges at
+    /// one node) instead of the chains / cycles / fans
+    #[serde(default)]
+    pub hubs: usize,
 }
 
 /// The large structured families: (family name, connect history).
@@ -690,6 +694,35 @@ pub fn large_graphs(max_n: usize) -> Vec<(String, usize, Vec<(K, K)>)> {
     out
 }
 
+/// High-degree nodes on few nodes: node 0 with d = 1..=dmax edges to / from
+/// nodes 1..3 (parallel edges, self-loops), followed by the tail 1->2->3 so
+/// that the traversal goes on beyond the hub. Per-node thresholds (an inline
+/// buffer, a chunked iterator, an index built from some degree on) are
+/// reached with every residue of d.
+pub fn hub_graphs(dmax: usize) -> Vec<(String, usize, Vec<(K, K)>)> {
+    let mut out = Vec::new();
+    let fams: [(&str, fn(usize) -> (K, K)); 4] = [
+        ("hub-out", |i| (0, 1 + (i % 3) as K)),
+        ("hub-in", |i| (1 + (i % 3) as K, 0)),
+        ("hub-mixed", |i| match i % 4 {
+            0 => (0, 1),
+            1 => (2, 0),
+            2 => (0, 0),
+            _ => (0, 3),
+        }),
+        ("hub-parallel", |_| (0, 1)),
+    ];
+    for d in 1..=dmax {
+        for (name, f) in fams.iter() {
+            let mut c: Vec<(K, K)> = (0..d).map(|i| f(i)).collect();
+            c.push((1, 2));
+            c.push((2, 3));
+            out.push((format!("{}{}", name, d), 4, c));
+        }
+    }
+    out
+}
+
 /// Configurations for the large graphs: the filter subsets are replaced by a
 /// few single-arc rejections (the extra edge, the first and a middle chain edge).
 fn configs_large(prop: &str, directed: bool, n: usize, root: K, conns: &[(K, K)]) -> Vec<(Cfg, Vec<Arc3>, &'static str)> {
@@ -735,8 +768,11 @@ fn configs_large(prop: &str, directed: bool, n: usize, root: K, conns: &[(K, K)]
 
 pub fn large_sweep<F: Fl>(job: &Job, p: &GParams, out: &mut Out) {
     let prop = job.property.as_str();
-    let graphs = large_graphs(p.large);
+    let graphs = if p.hubs > 0 { hub_graphs(p.hubs) } else { large_graphs(p.large) };
     out.stats.max("large_graphs_total", graphs.len() as u64);
+    if p.hubs > 0 {
+        out.stats.max("max_hub_degree", p.hubs as u64);
+    }
     let mut dfs = DfsOrders::default();
     for (gi, (name, n, conns)) in graphs.iter().enumerate() {
         if gi % job.nshards != job.shard {
@@ -1155,7 +1191,7 @@ pub fn sweep<F: Fl>(job: &Job, out: &mut Out) {
     let p: GParams = serde_json::from_value(job.params.clone()).expect("gsweep params");
     set_churn(p.churn);
     CHURN_FELL_BACK.with(|c| c.set(0));
-    if p.large > 0 {
+    if p.large > 0 || p.hubs > 0 {
         return large_sweep::<F>(job, &p, out);
     }
     if let Some(k) = job.params.get("heap").and_then(|v| v.as_u64()) {
